@@ -4839,16 +4839,15 @@ Definition ex_unordered : Block :=
   | Ok ts => match run parse_block_g ts with Ok b => b | _ => MkBlock [] [] end
   | _ => MkBlock [] []
   end.
+Definition ex_unordered_b : block :=
+  match block_to_biscuit [] ex_unordered with Ok b => b | _ => empty_block end.
 Example C15_from_grammar_nonvacuous :
   sorted3 (bl_body ex_unordered) = false /\
   printable_block (norm_block ex_unordered) = true /\
-  (exists b, block_to_biscuit [] ex_unordered = Ok b /\
-             reassemble (print_block (fun _ => 0) b)
-             = bs "f(1, hex:00ff, 2021-05-06T07:08:09Z);r($x) <- s($x, [10, 2]), $x.contains(""s""), !false;check if a(1), b($x), $x < 2 or c(3);").
-Proof.
-  split; [vm_compute; reflexivity|]. split; [vm_compute; reflexivity|].
-  eexists. split; vm_compute; reflexivity.
-Qed.
+  is_ok (block_to_biscuit [] ex_unordered) = true /\
+  reassemble (print_block (fun _ => 0) ex_unordered_b)
+  = bs "f(1, hex:00ff, 2021-05-06T07:08:09Z);r($x) <- s($x, [10, 2]), $x.contains(""s""), !false;check if a(1), b($x), $x < 2 or c(3);".
+Proof. vm_compute. repeat split. Qed.
 
 (* ================================================================== *)
 (* Assumptions                                                          *)
